@@ -26,7 +26,7 @@ from concurrent.futures import ThreadPoolExecutor
 from . import common
 
 NK = 2
-FS_SET = 'mkdir,openat,write,close,unlink,unlinkat,rmdir,rename'
+FS_SET = 'mkdir,openat,write,close,unlink,unlinkat,rmdir,rename,renameat,renameat2,sendfile,copy_file_range,ftruncate,truncate,link,linkat'
 SQL_SET = 'openat,write,pwrite64,fdatasync,fsync,ftruncate,unlink,unlinkat,rename,close'
 ALL_BACKENDS = ['file', 'dir', 'sql-file', 'file-json', 'dir-json', 'file-py', 'dir-py', 'dir-fast', 'dir-compressed']
 # the deviations that describe the code as it is now (kept in step with the fix: commits; see DESIGN.md)
@@ -91,6 +91,9 @@ def worker_env():
     env['PYTHONPATH'] = common.VERIF
     env['PYTHONDONTWRITEBYTECODE'] = '1'
     env['PYTHONHASHSEED'] = '0'
+    tmp = common.other_fs_tmp()
+    if tmp:
+        env['TMPDIR'] = tmp      # the system's temporary directory is on another file system than the archives
     return env
 
 
